@@ -56,7 +56,8 @@ func (c *Cov) osc8(ln int) {
 }
 
 // linkState classifies a cell's hyperlink relative to its predecessor's: 0 none, 1 the same
-// URI and parameters, 2 the same URI with other parameters, 3 another URI.
+// URI and parameters, 2 the same URI with other parameters, 3 another URI (after state 0 only 0 and 3
+// can follow: 14 ordered pairs).
 func linkState(prev, n StyleD) int {
 	switch {
 	case n.L == "":
@@ -183,7 +184,7 @@ func (c *Cov) Report() map[string]any {
 			"underline_style_pairs_of_36":     len(c.usPairs[k]),
 			"colour_class_pairs_of_75":        len(c.clsPairs[k]),
 			"colour_class_triple_pairs_15625": len(c.triPairs[k]),
-			"hyperlink_state_pairs_of_16":     len(c.linkPairs[k]),
+			"hyperlink_state_pairs_of_14":     len(c.linkPairs[k]),
 		}
 	}
 	forms := make([]string, 0, len(c.forms))
@@ -444,7 +445,7 @@ func Fixed() [][]CellD {
 
 // ---- hyperlinked cells -------------------------------------------------------
 
-var linkURIs = []string{"http://x", "https://example.com/a;b=m[1]?q=%20:8#f", "file:///tmp/\x1b"[:12], "mailto:a@b.c"}
+var linkURIs = []string{"http://x", "https://example.com/a;b=m[1]?q=%20:8#f", "file:///tmp/a%20b", "mailto:a@b.c"}
 var linkParams = []string{"", "id=1", "id=2", "id=a1:foo=bar"}
 
 // LinkFixed: hand-written hyperlink cases (codecs only).
